@@ -678,6 +678,19 @@ class Item:
         iv = "vx_it" if k == 1 else "vx_it%d" % k
         self.rewrite(s, bopen + 1, "let mut %s = vx_into_iter(%s);\n    loop\n    /*@loop*/\n    {\n      let Some(%s) = %s.next() else { break; };/*@body*/" % (iv, recv, pat, iv), "R3-for-owned")
 
+    def r3_for_by_ref(self, fn, k):
+        """for X in RECV.by_ref() { BODY }  ==>  loop { let Some(X) = RECV.next() else { break; }; BODY }
+        (the definition of a for loop over `&mut I`)"""
+        ls = self.loops(fn)
+        if k > len(ls) or ls[k - 1][0] != "for":
+            raise Undecided("LOST-ANCHOR: R3 for-by-ref loop %d of fn %s in %s" % (k, fn, self.where()))
+        _, s, bopen, bclose = ls[k - 1]
+        mo = re.match(r"for\s+(.+?)\s+in\s+(.+?)\s*\.\s*by_ref\s*\(\s*\)\s*$", self.text[s:bopen], re.S)
+        if not mo:
+            raise Undecided("R3 for-by-ref: header not recognised")
+        pat, recv = mo.group(1).strip(), mo.group(2).strip()
+        self.rewrite(s, bopen + 1, "loop\n    /*@loop*/\n    {\n      let Some(%s) = %s.next() else { break; };/*@body*/" % (pat, recv), "R3-for-by-ref")
+
     def r3_for_index_mut(self, fn, k):
         self.r3_for_index(fn, k, "mut")
 
